@@ -553,7 +553,8 @@ fn is_changed_after_unmarking_chemistry(mathml: Element) -> bool {
         } else if let Some(changed_value) = mathml.attribute_value(CHANGED_ATTR) {
             // only the invisible operators inserted by canonicalization are removed; an author's leaf can carry the 'added' mark
             // when it was lifted into an mrow that replaced an mstyle/mpadded with several children
-            if changed_value == ADDED_ATTR_VALUE && name(&mathml) == "mo" &&
+            // (they are always children of an mrow; the mark on a child of mfrac, msub, ... came in with the input, and the parent needs that child)
+            if changed_value == ADDED_ATTR_VALUE && name(&mathml) == "mo" && name(&get_parent(mathml)) == "mrow" &&
                matches!(as_text(mathml), "\u{2061}" | "\u{2062}" | "\u{2063}" | "\u{2064}") {
                 mathml.remove_from_parent();
                 return true;
